@@ -312,6 +312,38 @@ def rule_chain(chk, fb, rid, d, spec_chain, what):
             chk.ob(rid, "%s:%s" % (what, stage), False, where=fb.loc(d), detail="hash stage missing")
 
 
+LOSSY = ("take", "skip", "step_by", "filter", "filter_map", "take_while", "skip_while", "map_while", "nth", "zip", "truncate", "drain", "dedup", "pop",
+         "split_at", "split_off", "trim", "trim_end", "trim_start", "trim_matches", "to_lowercase", "to_uppercase", "to_ascii_lowercase", "to_ascii_uppercase",
+         "resize")
+LOSSY_ON_STR = ("get", "index", "get_unchecked", "split", "split_once", "rsplit_once", "replace", "replacen", "chars", "char_indices")  # only when applied to the text itself
+
+
+def password_cut(fb, fn, param, depth=0):
+    """Calls that can drop or alter part of the password on its way from parameter `param` of fn to encode_utf16 and on
+    to the byte buffer (iterator adaptors and string/vector operations that shorten or rewrite), in fn or in the crate
+    function it hands the parameter to.  The hash functions are not looked through."""
+    b = fb.mir.get(fn)
+    if not b or depth > 3:
+        return []
+    fl = Flow(fb, b)
+    stop = lambda f: f in fb.mir
+    out = []
+    has_enc = any(t.get("fn", "").endswith("encode_utf16") and t["args"] and ("arg", param) in fl.atoms(t["args"][0], stop_calls=stop) for _, t in fl.calls())
+    for bi, t in fl.calls():
+        f = t.get("fn", "")
+        if f in fb.mir:
+            if not has_enc and f != fn:
+                for i, a in enumerate(t["args"]):
+                    if ("arg", param) in fl.atoms(a, through_calls=False):
+                        out += password_cut(fb, f, i + 1, depth + 1)
+            continue
+        last = f.split("::")[-1]
+        on_str = t["args"] and "p" in t["args"][0] and fl.local_ty(t["args"][0]["p"]["l"]).replace("&", "").replace("mut ", "").strip() in ("str", "std::string::String")
+        if (last in LOSSY or (last in LOSSY_ON_STR and on_str)) and t["args"] and ("arg", param) in fl.atoms(t["args"][0], stop_calls=stop):
+            out.append("%s in %s" % (f.split("::")[-1], fn.split("::")[-1]))
+    return out
+
+
 def utf16le_encoded(fb, fn, param, depth=0):
     """Does parameter `param` (1-based) of fn reach str::encode_utf16 whose units are turned into bytes with to_le_bytes -
     in fn itself or in a crate function it hands the parameter to? Returns (ok, per_char_conversion_seen)."""
@@ -352,6 +384,8 @@ def rule_shapes(chk, fb):
         pw = next((i for i in range(1, kb["argc"] + 1) if fb.ty(kb["locals"][i]["t"]) == "&str" and kb["locals"][i].get("n") == "password"), 1)
         le, chars = utf16le_encoded(fb, kd, pw)
         chk.ob(rd, "kdf:utf16le", le and not chars, where=fb.loc(kd), detail="the password parameter reaches encode_utf16 and its units become bytes through to_le_bytes (here or in a helper it is handed to): %s; per-char truncating conversion present: %s" % (le, chars))
+        cut = password_cut(fb, kd, pw)
+        chk.ob(rd, "kdf:whole-password", not cut, where=fb.loc(kd), detail="every UTF-16 unit of the password enters the first hash: nothing between the parameter and the byte buffer shortens or rewrites it (%s)" % (cut or "none found"))
     iv = pre + "create_iv"
     if iv in fb.mir:
         sites, fl, b = hash_sites(fb, iv)
@@ -468,6 +502,53 @@ def rule_password_passthrough(chk, fb, rid, targets, floor):
                 n += 1
 
 
+def rule_no_plain_success(chk, fb, rid="C14.f", floor=3):
+    """A password entry point that reports success has encrypted: no successful return without the encryption step."""
+    from props.C13 import _assigns_err
+    from cfg import CFG
+
+    r = chk.rule(
+        rid,
+        "no success without encryption: in every public function that takes a password and returns a Result, each path to a successful return passes through the call of the package encryption (directly or through a crate function that itself always does)",
+        floor=floor,
+    )
+    ENC = "helper::crypt::encrypt"
+    memo = {}
+
+    def always_encrypts(d, depth=0):
+        """every non-error exit of d is preceded by a call of the encryption"""
+        if d == ENC:
+            return True
+        if d in memo:
+            return memo[d]
+        memo[d] = False
+        b = fb.mir.get(d)
+        if not b or depth > 4:
+            return False
+        cfg = CFG(b)
+        enc = {bi for bi, t in fb.calls_in(b) if t.get("fn") in fb.mir and always_encrypts(t["fn"], depth + 1)}
+        errb = {x for x in cfg.reach if (b["blocks"][x]["t"]["k"] == "call" and "from_residual" in b["blocks"][x]["t"].get("fn", "")) or _assigns_err(b, x)}
+        ok = bool(enc) and 0 not in enc | errb and not any(e in cfg.reachable(0, avoid=enc | errb) for e in cfg.exits)
+        ok = ok or 0 in enc
+        memo[d] = ok
+        return ok
+
+    for d, b in sorted(fb.mir.items()):
+        if b["kind"] not in ("Fn", "AssocFn") or b.get("vis") != "pub" or b["file"].startswith("tests") or "::{closure" in d:
+            continue
+        if d.startswith("helper::crypt::") and d != ENC:
+            continue  # the protection hashes are C15
+        if not any(b["locals"][i].get("n") == "password" and fb.ty(b["locals"][i]["t"]) == "&str" for i in range(1, b["argc"] + 1)):
+            continue
+        if not fb.ty(b["locals"][0]["t"]).startswith("std::result::Result<"):
+            continue
+        if d == ENC:
+            continue
+        chk.touch(d)
+        ok = always_encrypts(d)
+        chk.ob(r, d, ok, where=fb.loc(d), detail="every successful return follows the encryption call: %s" % ok)
+
+
 def _direct(fl, b, op, depth=0):
     out = set()
     for a in fl.atoms(op, through_calls=False):
@@ -485,5 +566,6 @@ def run(chk, fb, tier):
     rule_encrypt(chk, fb)
     rule_shapes(chk, fb)
     rule_password_passthrough(chk, fb, "C14.e", ["helper::crypt::encrypt"], 2)
+    rule_no_plain_success(chk, fb)
     chk.assume("aes/cbc/sha2/hmac crates implement AES-256-CBC, SHA-512 and HMAC; getrandom yields uniformly random bytes")
     chk.note("not decided: that the produced bytes decrypt under an independent implementation (digest/cipher values)")
